@@ -150,4 +150,24 @@ func addEnvIntrinsics(m map[string]intrinsic) {
 		out.Len, out.Cap = p.ctx.BV(64, 64), p.ctx.BV(64, 64)
 		return []Value{p.appendOp(a[1], out, pos, caller)}
 	}
+	// time.UnixMicro / (time.Time).UnixMicro as exact inverses: a Time made by UnixMicro carries its microsecond count
+	// in ext and a marker location; UnixMicro on such a value returns the count. (The standard library's conversion
+	// goes through seconds + nanoseconds with divisions by 10^6 and 10^3 each way.) Any other method applied to such
+	// a value is executed from the library and meets the marker: unsupported, never silently wrong.
+	m["time.UnixMicro"] = func(p *Path, fn *ssa.Function, a []Value, pos token.Pos, caller *ssa.Function) []Value {
+		mark, ok := p.userData["microTimeMarker"].(Cell)
+		if !ok {
+			mark = &ScalarCell{V: PoisonV{"time.Time made by the UnixMicro stub used by other time methods"}}
+			p.userData["microTimeMarker"] = mark
+		}
+		return []Value{StructV{F: []Value{IntV{T: p.ctx.BV(64, 0)}, IntV{T: p.intOf(a[0]).T}, Ptr{Kind: PCell, Cell: mark}}}}
+	}
+	m["(time.Time).UnixMicro"] = func(p *Path, fn *ssa.Function, a []Value, pos token.Pos, caller *ssa.Function) []Value {
+		if sv, ok := a[0].(StructV); ok && len(sv.F) == 3 {
+			if pt, ok := sv.F[2].(Ptr); ok && pt.Kind == PCell && pt.Cell == p.userData["microTimeMarker"] {
+				return []Value{sv.F[1]}
+			}
+		}
+		return p.execFunction(fn, a, nil)
+	}
 }
